@@ -100,10 +100,10 @@ CLAIMS.update({
             'Coq proof (composition of C01/C02 re-rendering lemmas, C03-C05 framing, codec bijection tables by vm_compute) + differential correspondence through functions and CLI entry points', '6/C19'),
     'C20': ('Theorem for every canonical CSV table (boolean domain canonical_tableb: distinct columns incl. MTI, data elements 2..127 and PDS sub-elements, plain decimal numerals, ISO date-times '
             'in the window, exact-width fixed text, 1..99/999 variable text, empty = absent, fits a record), any well-formed configuration without PAN processors, any codec, blocked or not: '
-            'csv_to_ipm succeeds and ipm_to_rows of that file gives back every row cell for cell; value lemmas str(int(s)) = s and str(parse_iso(s)) = s. The same at TEXT level (props/C20text.v): '
+            'csv_to_ipm succeeds and ipm_to_rows of that file gives back every row cell for cell; value lemmas str(int(s)) = s and str(parse_iso(s)) = s; a date-time cell in any of the five plain ISO 8601 spellings (T separator, no seconds, date alone) is written back as a cell that reads as the same date-time (C20_date_spellings). The same at TEXT level (props/C20text.v): '
             'the csv text of such a table (cells without CR, at most 131072 characters) through mci_csv_to_ipm and mci_ipm_to_csv gives back the same text; csv.reader reads back every table csv.writer wrote. '
             'Correspondence + row oracle through mci_csv_to_ipm / mci_ipm_to_csv as functions and command entry points on real files, at row and at text level.',
-            TB + 'CPython csv module is inside the model (model/Csv.v: transcription of _csv.c writer / reader and of DictReader; compared with csv.reader on arbitrary and malformed texts and with csv.writer on arbitrary rows each run); dateutil only on canonical ISO strings',
+            TB + 'CPython csv module is inside the model (model/Csv.v: transcription of _csv.c writer / reader and of DictReader; compared with csv.reader on arbitrary and malformed texts and with csv.writer on arbitrary rows each run); dateutil / fromisoformat only on the five plain ISO 8601 spellings (compared on 11 000 valid and 5 500 invalid values)',
             'Coq proof (row -> native message is wf_msgb, C06 file round trip, numeral/date printing inverses, csv reader/writer round trip) + differential correspondence through functions and CLI entry points', '6/C20'),
 })
 PENDING = 'not yet claimed: model and theorems for this property are still being built (DESIGN.md section 11); no check registered yet'
